@@ -20,7 +20,7 @@ Definition all_opt_canon : list (option exc) := None :: map Some all_canon_excs.
 Lemma all_positions_complete : forall p, In p all_positions.
 Proof. destruct p as [| | | | | | | | | | |d|]; try (simpl; tauto); destruct d; simpl; tauto. Qed.
 Lemma all_upos_complete : forall p, In p all_upos.
-Proof. destruct p as [| | | | |d]; try (simpl; tauto); destruct d; simpl; tauto. Qed.
+Proof. destruct p as [| | | | |d| | |]; try (simpl; tauto); destruct d; simpl; tauto. Qed.
 Lemma all_leaves_complete : forall k, In k all_leaves.
 Proof. destruct k; simpl; tauto. Qed.
 Lemma flavours_complete : forall f, In f all_flavours.
@@ -164,3 +164,16 @@ Lemma fatal_group_escapes_udp :
 Proof. vm_compute. reflexivity. Qed.
 Lemma exception_kinds_exist : exc_is_exception (Group [KGeneric; KClientClosed]) = true /\ In (Group [KGeneric; KClientClosed]) all_canon_excs.
 Proof. split; [reflexivity | vm_compute; repeat (try (left; reflexivity); right)]. Qed.
+
+(* ---- the final forced close: every OSError-derived kind raised by the socket shutdown is swallowed ---- *)
+Definition chk_final_close (k : leaf) : bool :=
+  implb (isinst k C_OSError) (is_none (f_exc (layers_run adapter_close (Naked k)))).
+Lemma final_close_table : forallb chk_final_close all_leaves = true.
+Proof. vm_compute. reflexivity. Qed.
+Lemma final_close_swallowed k : isinst k C_OSError = true -> f_exc (layers_run adapter_close (Naked k)) = None.
+Proof.
+  intros H. pose proof final_close_table as T. rewrite forallb_forall in T. specialize (T k (all_leaves_complete k)).
+  unfold chk_final_close in T. rewrite H in T. simpl in T. now apply is_none_true.
+Qed.
+Lemma oserror_kinds_exist : isinst KOSError C_OSError = true /\ isinst KTimeout C_OSError = true /\ isinst KGeneric C_OSError = false.
+Proof. repeat split; reflexivity. Qed.
